@@ -302,3 +302,141 @@ pub fn gen_opt_steps(ch: &mut Chunker, r: &mut Rng, scale: usize) {
         }
     }
 }
+
+// ---------------------------------------------------------------------------------------------
+// word finding, splitting, force-breaking
+// ---------------------------------------------------------------------------------------------
+
+pub fn rec_words_steps(ch: &mut Chunker, line: &str, sep: Sep) {
+    textwrap::verif::install();
+    let r = guarded(&|| format!("find_words({:?}, {:?})", line, sep), || sep.to_separator().find_words(line).collect::<Vec<_>>());
+    let evs = textwrap::verif::take();
+    let orc = line_oracle_json(ch, line, sep);
+    let sj = ch.cps(line);
+    ch.push_raw(json!({"ev": "w.begin", "kind": "words", "sep": sep.name(), "s": sj, "orc": orc}));
+    for e in &evs {
+        match e.site {
+            "ascii_space.char" => ch.push_raw(json!({"ev": "a.char", "idx": e.vals[0], "inws": e.vals[1], "start": e.vals[2]})),
+            "unicode_break.opportunity" => ch.push_raw(json!({"ev": "x.opp", "idx": e.vals[0], "start": e.vals[1]})),
+            "unicode_break.word" => ch.push_raw(json!({"ev": "x.word", "orig": e.vals[0]})),
+            _ => {}
+        }
+    }
+    match r {
+        Ok(ws) => {
+            let ev = json!({"ev": "s.end", "res": words_json(ch, line, &ws), "status": "ok"});
+            ch.push_raw(ev);
+        }
+        Err(_) => ch.push_raw(json!({"ev": "s.end", "res": [], "status": "panic"})),
+    }
+}
+
+/// split_words and break_apart on one word (`s` has spaces only at its end and is not empty)
+pub fn rec_break_steps(ch: &mut Chunker, s: &str, lim: usize, sp: Splitter) {
+    let limj = match alpha(lim) {
+        Some(v) => v,
+        None => return,
+    };
+    let splitter = sp.to_splitter();
+    textwrap::verif::install();
+    let r1 = guarded(&|| format!("split_words({:?}, {:?})", s, sp), || {
+        textwrap::word_splitters::split_words(vec![textwrap::core::Word::from(s)], &splitter).collect::<Vec<_>>()
+    });
+    let ev1 = textwrap::verif::take();
+    textwrap::verif::install();
+    let r2 = guarded(&|| format!("break_apart({:?}, {})", s, lim), || textwrap::core::Word::from(s).break_apart(lim).collect::<Vec<_>>());
+    let ev2 = textwrap::verif::take();
+    let sj = ch.cps(s);
+    ch.push_raw(json!({"ev": "w.begin", "kind": "break", "s": sj, "lim": limj, "splitter": sp.name()}));
+    for e in &ev1 {
+        match e.site {
+            "split_words.piece" => ch.push_raw(json!({"ev": "p.piece", "prev": e.vals[0], "idx": e.vals[1], "nh": e.vals[2]})),
+            "split_words.last" => ch.push_raw(json!({"ev": "p.last", "prev": e.vals[0]})),
+            _ => {}
+        }
+    }
+    match r1 {
+        Ok(ws) => {
+            let ev = json!({"ev": "p.end", "res": words_json(ch, s, &ws), "status": "ok"});
+            ch.push_raw(ev);
+        }
+        Err(_) => ch.push_raw(json!({"ev": "p.end", "res": [], "status": "panic"})),
+    }
+    for e in &ev2 {
+        if e.site == "break_apart.char" {
+            ch.push_raw(json!({"ev": "b.char", "idx": e.vals[0], "off": e.vals[1], "width": e.vals[2]}));
+        }
+    }
+    match r2 {
+        Ok(ws) => {
+            let ev = json!({"ev": "b.end", "res": words_json(ch, s, &ws), "status": "ok"});
+            ch.push_raw(ev);
+        }
+        Err(_) => ch.push_raw(json!({"ev": "b.end", "res": [], "status": "panic"})),
+    }
+}
+
+/// "WSTEPS": find_words of both separators
+pub fn gen_words_steps(ch: &mut Chunker, r: &mut Rng, scale: usize) {
+    let seps: &[Sep] = if FULL { &[Sep::Ascii, Sep::Uax] } else { &[Sep::Ascii] };
+    for s in all_strings(&['a', ' ', '-', '\u{4f60}'], 4) {
+        for &sep in seps {
+            rec_words_steps(ch, &s, sep);
+        }
+    }
+    for s in all_strings(&['a', ' ', '\u{1b}', '[', 'm'], 4) {
+        for &sep in seps {
+            rec_words_steps(ch, &s, sep);
+        }
+    }
+    for i in 0..250 * scale {
+        let tc = TextCfg { max_words: 6, max_paras: 1, ansi: if i % 3 == 0 { Ansi::Any } else { Ansi::WellFormed }, unicode: true, ctrl: i % 4 == 0, crlf: false };
+        let s = match i % 4 {
+            0 => gen_alpha(r, ALPHA_ADVERSARIAL, 12),
+            1 => format!("{}{} {}", rand_word(r, 5), rand_seq(r), rand_word(r, 4)),
+            _ => gen_para(r, &tc),
+        };
+        for &sep in seps {
+            rec_words_steps(ch, &s, sep);
+        }
+    }
+}
+
+/// "BSTEPS": split_words and break_apart on single words
+pub fn gen_break_steps(ch: &mut Chunker, r: &mut Rng, scale: usize) {
+    let sps = [Splitter::None, Splitter::Hyphen, Splitter::Hyphen, Splitter::Every2, Splitter::Every3];
+    for s in all_strings(&['a', '-', '\u{4f60}', '\u{301}'], 4) {
+        if s.is_empty() {
+            continue;
+        }
+        for lim in 0..3 {
+            rec_break_steps(ch, &s, lim, sps[(s.len() + lim) % sps.len()]);
+        }
+    }
+    for s in all_strings(&['a', '\u{1b}', '[', 'm', '-'], 4) {
+        if s.is_empty() {
+            continue;
+        }
+        rec_break_steps(ch, &s, s.len() % 3, Splitter::Hyphen);
+    }
+    let tc = TextCfg { max_words: 1, max_paras: 1, ansi: Ansi::Any, unicode: true, ctrl: true, crlf: false };
+    for i in 0..400 * scale {
+        let mut w = match i % 3 {
+            0 => format!("{}-{}", rand_word(r, 3), rand_word(r, 3)),
+            1 => format!("{}{}{}", rand_word(r, 3), rand_seq(r), rand_word(r, 2)),
+            _ => gen_word(r, &tc),
+        };
+        w.retain(|c| c != ' ' && c != '\n');
+        if w.is_empty() {
+            continue;
+        }
+        if i % 5 == 0 {
+            w.push_str("  ");
+        }
+        let mut sp = *r.pick(&sps);
+        if w.contains('\u{1b}') && matches!(sp, Splitter::Every2 | Splitter::Every3) {
+            sp = Splitter::Hyphen;
+        }
+        rec_break_steps(ch, &w, *r.pick(&[0usize, 1, 1, 2, 3, 5, 8, usize::MAX]), sp);
+    }
+}
